@@ -231,6 +231,57 @@ def ctx_var(loop):
     raise Unsupported("no `x = PresentationContext()` in the loop body")
 
 
+class PriorDict(dict):
+    """a dict accumulator at the head of an ARBITRARY iteration: it holds whatever earlier iterations stored (unknown), and -
+    as a Python dict - the entries THIS iteration stores (which is what the per-iteration obligations look at).  Reading it
+    must therefore not behave like reading an empty dict: membership of a key is (stored in this iteration) or an unknown
+    Boolean 'an earlier iteration stored it' (memoised per key); reading a value of an earlier iteration is outside the
+    abstraction."""
+
+    def __init__(self, I, name):
+        super().__init__()
+        self._I, self._name, self._prior = I, name, []
+
+    def sym_contains(self, I, k):
+        now = I.contains(list(self.keys()), k)
+        if now is True:
+            return True
+        for k0, b in self._prior:
+            t = I.eq(k0, k)
+            if t is True or (not isinstance(t, bool) and I.valid(t)):
+                prior = b
+                break
+        else:
+            I._fresh_n += 1
+            prior = z3.Bool(f"stored-earlier({self._name})!{I._fresh_n}")
+            self._prior.append((k, prior))
+        return prior if now is False else z3.Or(now, prior)
+
+    def truth(self, I):
+        if len(self):
+            return True
+        I._fresh_n += 1
+        return z3.Bool(f"non-empty({self._name})!{I._fresh_n}")
+
+
+class PriorList(list):
+    """a list accumulator at the head of an arbitrary iteration: the Python list holds what THIS iteration appends; its earlier
+    content is unknown, so asking for its length / truth / membership is outside the abstraction"""
+
+    def __init__(self, name):
+        super().__init__()
+        self._name = name
+
+    def sym_contains(self, I, k):
+        raise Unsupported(f"the loop body asks whether something is in the accumulator list `{self._name}` (its earlier content is abstracted)")
+
+    def sym_len(self, I):
+        raise Unsupported(f"the loop body reads the length of the accumulator list `{self._name}` (its earlier content is abstracted)")
+
+    def truth(self, I):
+        raise Unsupported(f"the loop body tests the accumulator list `{self._name}` (its earlier content is abstracted)")
+
+
 def accumulators(loop):
     """lists appended to / dicts stored into inside the loop body"""
     lists, dicts = [], []
@@ -258,7 +309,7 @@ class RejectAllLoop(LoopSpec):
 
     def havoc(self, I, fr):
         for nm in self.lists:
-            fr.locals[nm] = []        # observe exactly this iteration's appends
+            fr.locals[nm] = PriorList(nm)        # observe exactly this iteration's appends
         I.ghost["iter"] = "reject-all"
 
     def after_body(self, I, fr):
@@ -292,9 +343,9 @@ class MainLoop(LoopSpec):
 
     def havoc(self, I, fr):
         for nm in self.lists:
-            fr.locals[nm] = []
+            fr.locals[nm] = PriorList(nm)
         for nm in self.dicts:
-            fr.locals[nm] = {}
+            fr.locals[nm] = PriorDict(I, nm)
         I.ghost["iter"] = "main"
         I.ghost["inner"] = None
 
@@ -568,7 +619,7 @@ class PartitionLoop(LoopSpec):
 
     def havoc(self, I, fr):
         for nm in self.lists:
-            fr.locals[nm] = []
+            fr.locals[nm] = PriorList(nm)
         I.ghost["iter"] = "partition"
 
     def after_body(self, I, fr):
@@ -599,9 +650,9 @@ class StorageLoop(LoopSpec):
 
     def havoc(self, I, fr):
         for nm in self.lists:
-            fr.locals[nm] = []
+            fr.locals[nm] = PriorList(nm)
         for nm in self.dicts:
-            fr.locals[nm] = {}
+            fr.locals[nm] = PriorDict(I, nm)
         I.ghost["iter"] = "storage"
 
     def on_exit(self, I, fr):
@@ -754,7 +805,7 @@ class RequestorLoop(LoopSpec):
 
     def havoc(self, I, fr):
         for nm in self.lists:
-            fr.locals[nm] = []
+            fr.locals[nm] = PriorList(nm)
         I.ghost["iter"] = "requestor"
 
     def on_exit(self, I, fr):
